@@ -285,6 +285,9 @@ func (b *EndpointBuilder) WriteHash(h hash.Hash) {
 		h.Write(Separator)
 		h.WriteString(strconv.FormatBool(bool(b.proxy.Metadata.DisableHBONESend)))
 		h.Write(Separator)
+		// filterGatewaysByIPFamily picks the network gateways by the IP families the proxy supports.
+		h.WriteString(strconv.Itoa(int(b.proxy.GetIPMode())))
+		h.Write(Separator)
 	}
 	h.WriteString(util.LocalityToString(b.locality))
 	h.Write(Separator)
